@@ -113,6 +113,38 @@ func c17LateProg(ops []c17Op) *Prog {
 	return &Prog{Stmts: append(st, Print{Args: []Expr{StrLit{V: "done"}}})}
 }
 
+// c17FlagProg: the append flag of every write is the result of a call (plain and grouped), never a literal.
+func c17FlagProg(ops []c17Op) *Prog {
+	st := []Stmt{FuncDef{Name: "flag", Params: []Param{{"b", TBool}}, Rets: []Type{TBool}, Body: []Stmt{Return{Vals: []Expr{Var{"b"}}}}}}
+	n := 0
+	for _, o := range ops {
+		if o.kind == "W" || o.kind == "A" {
+			var f Expr = Call{Fn: "flag", Args: []Expr{BoolLit{o.kind == "A"}}}
+			if n%2 == 1 {
+				f = Group{X: f}
+			}
+			n++
+			st = append(st, Write{Path: StrLit{V: o.path}, Data: StrLit{V: o.content}, Append: f})
+		} else {
+			st = append(st, c17Stmts([]c17Op{o})...)
+		}
+	}
+	return &Prog{Stmts: append(st, Print{Args: []Expr{StrLit{V: "done"}}})}
+}
+
+// c17RewriteProg: after the operations, ONE statement reads the file, rewrites it through a function and
+// reads it again - each read(p) yields the content at the moment its operand is evaluated.
+func c17RewriteProg(ops []c17Op, path string) *Prog {
+	st := []Stmt{FuncDef{Name: "put", Params: []Param{{"p", TStr}, {"c", TStr}}, Rets: []Type{TStr}, Body: []Stmt{Write{Path: Var{"p"}, Data: Var{"c"}}, Return{Vals: []Expr{StrLit{V: "put"}}}}}}
+	st = append(st, c17Stmts(ops)...)
+	p := StrLit{V: path}
+	st = append(st,
+		Print{Args: []Expr{StrLit{V: "rw"}, ReadE{Path: p}, Call{Fn: "put", Args: []Expr{p, StrLit{V: "fresh"}}}, ReadE{Path: p}}},
+		Define{Names: []string{"same"}, Form: DefShort, Vals: []Expr{Binary{Op: "==", L: Binary{Op: "+", L: ReadE{Path: p}, R: Call{Fn: "put", Args: []Expr{p, StrLit{V: "gone"}}}}, R: StrLit{V: "freshput"}}}},
+		Print{Args: []Expr{StrLit{V: "cmp"}, Var{"same"}, ReadE{Path: p}}})
+	return &Prog{Stmts: append(st, Print{Args: []Expr{StrLit{V: "done"}}})}
+}
+
 func c17Prog(ops []c17Op, inFunc bool, viaVars bool) *Prog {
 	body := c17Stmts(ops)
 	if viaVars {
@@ -256,6 +288,14 @@ func C17() int {
 			}
 			key = fmt.Sprintf("cell path=%q content=%q ctx=mixed", c.path, c.content)
 			if !judge(key, key, c17MixedProg(ops)) {
+				ok = false
+			}
+			key = fmt.Sprintf("cell path=%q content=%q ctx=flag-from-call", c.path, c.content)
+			if !judge(key, key, c17FlagProg(ops)) {
+				ok = false
+			}
+			key = fmt.Sprintf("cell path=%q content=%q ctx=read-rewrite-read-in-one-statement", c.path, c.content)
+			if !judge(key, key, c17RewriteProg(ops, c.path)) {
 				ok = false
 			}
 			key = fmt.Sprintf("cell path=%q content=%q ctx=first-sites-not-yet-run", c.path, c.content)
